@@ -350,7 +350,7 @@ func updateLeaves(leaves []elementLeaf) [64][]elementLeaf {
 			}
 			return leaves[0].hash()
 		}
-		mid := (i + j) / 2
+		mid := i + (j-i)/2
 		left, right := splitLeaves(leaves, mid)
 		var leftRoot, rightRoot types.Hash256
 		if len(left) == 0 {
